@@ -413,7 +413,12 @@ func buildABIParameterArrayForObject(ctx context.Context, properties map[string]
 		if err != nil {
 			return nil, err
 		}
-		parameters[*propertySchema.Details.Index] = parameter
+		index := propertySchema.Details.Index
+		if index == nil || *index < 0 || *index >= len(parameters) || parameters[*index] != nil {
+			// Each property must record a position in the tuple, and the positions must be 0..n-1 without repeats
+			return nil, i18n.NewError(ctx, signermsgs.MsgInvalidFFIDetailsSchema, propertyName)
+		}
+		parameters[*index] = parameter
 	}
 	return parameters, nil
 }
